@@ -248,9 +248,11 @@ package main
 //@   requires [C11] identity:  actsAsSelfOrRoot(s, msg)
 //@   modifies *
 //@ func (s *Session) note(msg *ClientComMessage)
-//@   trusted
 //@   requires [C11] identity:  actsAsSelfOrRoot(s, msg)
+//@   requires [C13] s != nil && msg != nil && msg.Note != nil && globals.hub != nil
 //@   modifies *
+//@   nopanic
+//@   safe
 
 //@ func (s *Session) dispatch(msg *ClientComMessage)
 //@   requires [C11] s != nil && msg != nil
@@ -464,3 +466,16 @@ package main
 //@   ensures [C12] salted: isValid ==> len(data) == 24 && data[0] == 1 && macMatches("md5", globals.apiKeySalt, data[0:8], data[8:24])
 //@   ensures [C12] root_signed: isRoot ==> isValid && data[7] == 1
 //@   safe
+
+// C13: no client message can make the protobuf front end panic.
+//@ func pbCliDeserialize(pkt *pbx.ClientMsg) (msg *ClientComMessage)
+//@   requires [C13] pkt != nil
+//@   modifies *
+//@   nopanic
+//@   safe
+//@ func pbGetQueryDeserialize(in *pbx.GetQuery) (res *MsgGetQuery)
+//@   modifies inferred
+//@   ensures [C13] in != nil ==> res != nil
+//@ func pbClientCredDeserialize(in *pbx.ClientCred) (res *MsgCredClient)
+//@   modifies inferred
+//@   ensures [C13] in != nil ==> res != nil
